@@ -335,6 +335,74 @@ AREAS = [
                    'CK->GetSuppressedNotifications()': Zb('ck_supp'), 'notification->GetSuppressedNotifications()': Zb('nf_supp'),
                    'CK->IsInDowntime()': Bb('in_downtime'), 'CK->IsAcknowledged()': Bb('acknowledged'), 'CK->IsFlapping()': Bb('flapping')}),
     ]),
+    # ---------------------------------------------------------------------------------------- round 2: C06 acknowledgements
+    dict(area='ack', requires=['Icv.Facts.Facts_enums', 'Icv.Src.XlPrelude', 'Icv.Facts.Facts_fn_ck'], items=[
+        dict(glue='ack_events', props=['C06'], deps=[], doc='effects of the acknowledgement functions other than attribute writes, in program order',
+             text='Inductive xa_ev := XaCleared | XaSet (type : Z) | XaNotify (type : Z) | XaApply.\n'),
+        dict(name='checkable_is_acknowledged', func='Checkable::IsAcknowledged', file='lib/icinga/checkable.cpp', props=['C06', 'C02'],
+             inputs=[('now', 'Z'), ('ack_raw', 'Z'), ('ack_expiry', 'Z')], ret='bool',
+             bind={'const_cast<Checkable *>(this)->GetAcknowledgement()': ('fst (src_checkable_get_acknowledgement now ack_raw ack_expiry)', 'Z')}),
+        dict(name='checkable_clear_acknowledgement', func='Checkable::ClearAcknowledgement', file='lib/icinga/checkable.cpp', props=['C06'],
+             inputs=[('ack_raw', 'Z'), ('ack_expiry', 'Z'), ('change_time', 'Z'), ('last_change0', 'Z')], ret='void', dummy='(0, 0, 0, nil)',
+             params={'changeTime': Zb('change_time')},
+             state=[('$raw', 'ack_raw', 'Z'), ('$exp', 'ack_expiry', 'Z'), ('$lastchange', 'last_change0', 'Z'), ('$events', '(@nil xa_ev)', 'list xa_ev')],
+             getters={'GetAcknowledgementRaw()': '$raw'},
+             setters={'SetAcknowledgementRaw': '$raw', 'SetAcknowledgementExpiry': '$exp', 'SetAcknowledgementLastChange': '$lastchange'},
+             emits={'OnAcknowledgementCleared': ('$events', 'XaCleared', [None, None, None, None])}),
+        dict(name='checkable_acknowledge_problem', func='Checkable::AcknowledgeProblem', file='lib/icinga/checkable.cpp', props=['C06'],
+             inputs=[('type', 'Z'), ('notify', 'bool'), ('expiry', 'Z'), ('change_time', 'Z'), ('paused', 'bool'), ('ack_raw', 'Z'), ('ack_expiry', 'Z'),
+                     ('last_change0', 'Z')], ret='void', dummy='(0, 0, 0, nil)',
+             params={'type': Zb('type'), 'notify': Bb('notify'), 'expiry': Zb('expiry'), 'changeTime': Zb('change_time')},
+             state=[('$raw', 'ack_raw', 'Z'), ('$exp', 'ack_expiry', 'Z'), ('$lastchange', 'last_change0', 'Z'), ('$events', '(@nil xa_ev)', 'list xa_ev')],
+             setters={'SetAcknowledgementRaw': '$raw', 'SetAcknowledgementExpiry': '$exp', 'SetAcknowledgementLastChange': '$lastchange'},
+             emits={'OnNotificationsRequested': ('$events', 'XaNotify {1}', [None, 'Z', None, None, None, None]),
+                    'OnAcknowledgementSet': ('$events', 'XaSet {3}', [None, None, None, 'Z', None, None, None, None, None])},
+             bind={'IsPaused()': Bb('paused')}),
+        dict(glue='ack_state_passing', props=['C06'], deps=['checkable_get_acknowledgement', 'checkable_clear_acknowledgement'],
+             doc='GetAcknowledgement() / ClearAcknowledgement("") as STATE TRANSFORMERS over (acknowledgement_raw, acknowledgement_expiry, events): '
+                 'every ClearAcknowledgement("") the translated GetAcknowledgement reports is executed by the translated ClearAcknowledgement',
+             text='Definition xa_clear (raw exp : Z) (evs : list xa_ev) : Z * Z * list xa_ev :=\n'
+                  "  let '(raw', exp', _, ev') := src_checkable_clear_acknowledgement raw exp 0 0 in (raw', exp', evs ++ ev').\n"
+                  'Definition xa_get_ack (now raw exp : Z) (evs : list xa_ev) : Z * Z * Z * list xa_ev :=\n'
+                  "  let '(v, cl) := src_checkable_get_acknowledgement now raw exp in\n"
+                  "  match cl with [] => (v, raw, exp, evs) | _ :: _ => let '(raw', exp', evs') := xa_clear raw exp evs in (v, raw', exp', evs') end.\n"),
+        # the "remove acknowledgements" block of ProcessCheckResult: GetAcknowledgement() is read up to three times, with its lazy
+        # expiry and ClearAcknowledgement("") writing in between -> explicit state passing
+        dict(name='pcr_ack_clear', func='Checkable::ProcessCheckResult', file='lib/icinga/checkable-check.cpp', props=['C06'],
+             region=(r'if\s*\(\s*stateChange\s*\)\s*\{\s*SetLastStateChange', r'bool\s+hardChange\s*='), outputs=['remove_acknowledgement_comments'],
+             inputs=[('now', 'Z'), ('is_host', 'bool'), ('state_change', 'bool'), ('new_state', 'Z'), ('cr_end', 'Z'), ('lsc0', 'Z'),
+                     ('ack_raw', 'Z'), ('ack_expiry', 'Z')], ret='void', rcoq='bool * Z * Z * Z * list xa_ev', dummy='(false, 0, 0, 0, nil)',
+             locals={'stateChange': Bb('state_change'), 'new_state': Zb('new_state')},
+             state=[('$lsc', 'lsc0', 'Z'), ('$raw', 'ack_raw', 'Z'), ('$exp', 'ack_expiry', 'Z'), ('$events', '(@nil xa_ev)', 'list xa_ev')],
+             setters={'SetLastStateChange': '$lsc'},
+             calls_st={'GetAcknowledgement()': dict(term='xa_get_ack now {$raw} {$exp} {$events}', updates=['$raw', '$exp', '$events'], ret='Z'),
+                       'ClearAcknowledgement': dict(term='xa_clear {$raw} {$exp} {$events}', updates=['$raw', '$exp', '$events'], ret=None, args=[None])},
+             bind={'cr->GetExecutionEnd()': Zb('cr_end')},
+             fns={'IsStateOK': ('src_checkable_is_state_ok is_host', ['Z'], 'bool')}),
+        # preconditions of the API action (expiry in the future, not OK/Up, not already acknowledged): HTTP status of the refusal, 0 = proceeds
+        dict(name='apiactions_acknowledge_problem_refusal', func='ApiActions::AcknowledgeProblem', file='lib/icinga/apiactions.cpp', props=['C06'],
+             region=(r'if\s*\(\s*params->Contains\("expiry"\)\s*\)', r'ConfigObjectsSharedLock\s+lock'), region_exit=True, exit_code_of='ApiActions::CreateResult',
+             outputs=['timestamp'],
+             inputs=[('now', 'Z'), ('expiry_given', 'bool'), ('expiry_param', 'Z'), ('timestamp0', 'Z'), ('is_svc', 'bool'), ('state', 'Z'),
+                     ('ack_raw', 'Z'), ('ack_expiry', 'Z')], ret='void', rcoq='Z * Z', dummy='(0, 0)',
+             locals={'timestamp': Zb('timestamp0')}, aliases={'checkable': 'CK'},
+             skip=[r'^Log\(', r'^ObjectLock '],
+             stmts={'tie(host,service)=GetHostService(CK)': {'host': 'HOST', 'service': 'SVC'}},
+             bind={'params->Contains("expiry")': Bb('expiry_given'), 'HttpUtility::GetLastParameter(params,"expiry")': Zb('expiry_param'),
+                   'Utility::GetTime()': Zb('now'), 'SVC': ('is_svc', 'ptr'), 'SVC->GetState()': Zb('state'), 'HOST->GetState()': Zb('state'),
+                   'CK->IsAcknowledged()': ('src_checkable_is_acknowledged now ack_raw ack_expiry', 'bool')}),
+        # the cluster handler: AcknowledgeProblem is applied iff the message passes the origin checks and the object is not acknowledged
+        dict(name='clusterevents_acknowledgement_set_handler', func='ClusterEvents::AcknowledgementSetAPIHandler', file='lib/icinga/clusterevents.cpp', props=['C06'],
+             inputs=[('now', 'Z'), ('has_endpoint', 'bool'), ('has_host', 'bool'), ('has_service_param', 'bool'), ('has_checkable', 'bool'), ('from_zone', 'bool'), ('can_access', 'bool'),
+                     ('ack_raw', 'Z'), ('ack_expiry', 'Z')], ret='Z', rcoq='Z * list xa_ev', dummy='(0, nil)',
+             state=[('$events', '(@nil xa_ev)', 'list xa_ev')],
+             emits={'checkable->AcknowledgeProblem': ('$events', 'XaApply', [None] * 8)},
+             skip=[r'^Log\(', r'^ObjectLock '],
+             bind={'Empty': ('0', 'Z'), 'origin->FromClient->GetEndpoint()': ('has_endpoint', 'ptr'), 'Host::GetByName(params->Get("host"))': ('has_host', 'ptr'),
+                   'params->Contains("service")': Bb('has_service_param'), 'checkable': ('has_checkable', 'ptr'),
+                   'origin->FromZone': ('from_zone', 'ptr'), 'origin->FromZone->CanAccessObject(checkable)': Bb('can_access'),
+                   'checkable->IsAcknowledged()': ('src_checkable_is_acknowledged now ack_raw ack_expiry', 'bool')}),
+    ]),
     # ---------------------------------------------------------------------------------------- C18 (tracked, outside the subset today)
     dict(area='perm', requires=['Icv.Src.XlPrelude'], items=[
         # builds Expression objects with `new`, writes through an out-parameter: not translatable; listed so that the evidence
